@@ -13,6 +13,7 @@ import (
 	"runtime"
 	"sort"
 	"strings"
+	"sync/atomic"
 	"time"
 
 	"github.com/tjfoc/gmsm/verifsim/scen"
@@ -124,8 +125,9 @@ func pickFamily(fams []scen.Family, k uint64) (*scen.Family, uint64) {
 	return &fams[0], k
 }
 
-var watchdogRun uint64
-var watchdogFam string
+var watchdogRun uint64 // atomic
+var watchdogOn uint32  // atomic
+var watchdogFamV atomic.Value
 
 func raceLogSize() int64 {
 	if *fRaceLog == "" {
@@ -144,6 +146,22 @@ func raceLogTail(from int64) string {
 		return ""
 	}
 	return string(b[from:])
+}
+
+// raceSites splits a race log into reports and returns the sorted distinct
+// site pairs.
+func raceSites(log string) []string {
+	seen := map[string]bool{}
+	var out []string
+	for _, rep := range strings.Split(log, "WARNING: DATA RACE") {
+		s := raceSite(rep)
+		if s != "" && !seen[s] {
+			seen[s] = true
+			out = append(out, s)
+		}
+	}
+	sort.Strings(out)
+	return out
 }
 
 // raceSite extracts "f1 <-> f2" from a race report: the first gmsm frame of
@@ -223,15 +241,16 @@ func main() {
 		var since time.Time
 		for {
 			time.Sleep(200 * time.Millisecond)
-			cur := watchdogRun
+			cur := atomic.LoadUint64(&watchdogRun)
 			if cur != last {
 				last = cur
 				since = time.Now()
 				continue
 			}
-			if time.Since(since) > time.Duration(*fRunMS)*time.Millisecond && watchdogFam != "" {
-				res.HarnessErrs = append(res.HarnessErrs, fmt.Sprintf("WATCHDOG family=%s run=%d exceeded %d ms", watchdogFam, cur, *fRunMS))
-				write()
+			if time.Since(since) > time.Duration(*fRunMS)*time.Millisecond && atomic.LoadUint32(&watchdogOn) == 1 {
+				fam, _ := watchdogFamV.Load().(string)
+				// do not touch res from this goroutine (the main goroutine owns it)
+				os.WriteFile(*fOut+".watchdog", []byte(fmt.Sprintf("WATCHDOG family=%s run=%d exceeded %d ms", fam, cur, *fRunMS)), 0644)
 				os.Exit(3)
 			}
 		}
@@ -293,35 +312,51 @@ func main() {
 		if *fProgress != "" && i%16 == 0 {
 			os.WriteFile(*fProgress, []byte(fmt.Sprintf("%s %d\n", fam.Name, k)), 0644)
 		}
+		t0 := time.Now()
 		oneRun(res, sigs, fam, c, k, len(res.Violations) < *fMaxViol)
+		if os.Getenv("VERIF_WORKER_TRACE") != "" {
+			fmt.Fprintf(os.Stderr, "run %d %s %.3fs goroutines=%d\n", k, fam.Name, time.Since(t0).Seconds(), runtime.NumGoroutine())
+		}
 		if len(res.HarnessErrs) > 4 {
 			break
 		}
 		k += *fStride
 	}
-	watchdogFam = ""
+	atomic.StoreUint32(&watchdogOn, 0)
 	res.Done = true
 	write()
 }
 
 func oneRun(res *result, sigs map[uint64]struct{}, fam *scen.Family, c *simkit.Choice, k uint64, keepViol bool) {
-	watchdogFam = fam.Name
-	watchdogRun = k
+	watchdogFamV.Store(fam.Name)
+	atomic.StoreUint64(&watchdogRun, k)
+	atomic.StoreUint32(&watchdogOn, 1)
 	rl0 := raceLogSize()
 	r := simkit.NewRec(fam.FaultNames, fam.ReachNames)
 	fam.Run(c, r)
 	if buildKind == "race" {
 		if rl1 := raceLogSize(); rl1 > rl0 {
 			rep := raceLogTail(rl0)
-			site := raceSite(rep)
-			if site == "" {
-				r.HarnessErr = "race report without gmsm frame (harness self-race?):\n" + rep
-			} else {
+			sites := raceSites(rep)
+			if len(sites) == 0 {
 				if len(rep) > 6000 {
 					rep = rep[:6000]
 				}
+				r.HarnessErr = "race report without gmsm frame (harness self-race?):\n" + rep
+			} else {
+				// canonical site of the run: the smallest pair (reports are not
+				// de-duplicated across runs, see GORACE in the driver)
+				first := rep
+				if i := strings.Index(rep, "=================="); i >= 0 {
+					if j := strings.Index(rep[i+18:], "=================="); j >= 0 {
+						first = rep[i : i+18+j+18]
+					}
+				}
+				if len(first) > 5000 {
+					first = first[:5000]
+				}
 				// a race outranks result mismatches caused by it
-				r.ForceViolate("data-race", site, rep)
+				r.ForceViolate("data-race", sites[0], fmt.Sprintf("%d distinct racing site pairs in this run: %s\nfirst report:\n%s", len(sites), strings.Join(sites, "; "), first))
 			}
 		}
 	}
